@@ -71,7 +71,7 @@ Inductive got := GNone | GErr | GOk (j : jws).
 Definition jws_valid (claim_checked : bool) (now : Z) (j : jws) : bool :=
   j_genuine j && (j_nbf j <=? now) && (negb claim_checked || (now <? j_exp j)).
 
-Definition get_pw (claim_checked sub_checked_on_cache : bool) (s : pstate) (u : N) : got :=
+Definition get_pw (claim_checked : bool) (s : pstate) (u : N) : got :=
   match get_signed (st s) u pw_type with
   | None => GNone
   | Some r =>
@@ -79,48 +79,46 @@ Definition get_pw (claim_checked sub_checked_on_cache : bool) (s : pstate) (u : 
       | None => GErr
       | Some j =>
           if negb (jws_valid claim_checked (now (st s)) j) then GErr
-          else if (sub_checked_on_cache || mode_eqb (pmode (st s)) Up) && negb (N.eqb (j_sub j) u) then GErr
+          else if negb (N.eqb (j_sub j) u) then GErr      (* "inconsistent data coming from DB" *)
           else GOk j
       end
   end.
 
 Definition with_st (s : pstate) (x : state) : pstate := mk_pstate x (dir s) (servers s) (jwss s).
 
-(* UpsertSigned(u, 1, now+96h, hash): a new signed record, stored in the primary *)
-Definition refresh (s : pstate) (u pw : N) : pstate :=
+(* UpsertSigned(u, 1, now+96h, hash): a new signed record, stored in the primary (and, since
+   the repair, repeated on the local cache); nothing happens when the primary cannot be written *)
+Definition refresh (stp : state -> op -> state * out) (s : pstate) (u pw : N) : pstate :=
   if writable (st s) then
     let id := N.of_nat (length (jwss s)) in
     let n := now (st s) in
-    mk_pstate (fst (step (st s) (Upsert u pw_type id (n + cache_secs))))
+    mk_pstate (fst (stp (st s) (Upsert u pw_type id (n + cache_secs))))
               (dir s) (servers s)
               (jwss s ++ [mk_jws true u pw n (n + cache_secs)])
   else s.
 
-(* DeleteSigned(u, 1): from the local cache always, from the primary when it can be written *)
-Definition evict (cache_too : bool) (s : pstate) (u : N) : pstate :=
-  let x := st s in
-  let x1 := if cache_too
-            then with_cache x (set_signed (cache x) (adel skey_eqb (u, pw_type) (signed (cache x))))
-            else x in
-  with_st s (fst (step x1 (DelSigned u pw_type))).
+(* DeleteSigned(u, 1) *)
+Definition evict (stp : state -> op -> state * out) (s : pstate) (u : N) : pstate :=
+  with_st s (fst (stp (st s) (DelSigned u pw_type))).
 
 (* passwordAuthenticate u pw (u already normalised) *)
-Definition login_gen (claim_checked sub_checked cache_too : bool) (s : pstate) (u pw : N) : pstate * bool :=
+Definition login_gen (claim_checked : bool) (stp : state -> op -> state * out)
+           (s : pstate) (u pw : N) : pstate * bool :=
   match first_answer s (servers s) u pw with
-  | Some true => (refresh s u pw, true)
+  | Some true => (refresh stp s u pw, true)
   | Some false =>
-      (match get_pw claim_checked sub_checked s u with
-       | GOk j => if N.eqb (j_pw j) pw then evict cache_too s u else s
+      (match get_pw claim_checked s u with
+       | GOk j => if N.eqb (j_pw j) pw then evict stp s u else s
        | _ => s
        end, false)
   | None =>
-      (s, match get_pw claim_checked sub_checked s u with
+      (s, match get_pw claim_checked s u with
           | GOk j => N.eqb (j_pw j) pw
           | _ => false
           end)
   end.
 
-Definition login := login_gen true true true.
+Definition login := login_gen true step.
 
 (* tampering by SQL *)
 Inductive which := WPrimary | WCache.
@@ -152,10 +150,10 @@ Fixpoint set_nth {A} (i : nat) (v : A) (l : list A) : list A :=
   | x :: r, S i' => x :: set_nth i' v r
   end.
 
-Definition pstep_gen (lg : pstate -> N -> N -> pstate * bool) (stp : state -> op -> state * out)
+Definition pstep_gen (claim_checked : bool) (stp : state -> op -> state * out)
            (s : pstate) (o : pop) : pstate * option bool :=
   match o with
-  | Login u pw => let '(s', v) := lg s u pw in (s', Some v)
+  | Login u pw => let '(s', v) := login_gen claim_checked stp s u pw in (s', Some v)
   | SetServer i sv => (mk_pstate (st s) (dir s) (set_nth i sv (servers s)) (jwss s), None)
   | ChangePw u pw => (mk_pstate (st s) (aset N.eqb u pw (dir s)) (servers s) (jwss s), None)
   | PTick dt => (with_st s (fst (stp (st s) (Tick (Z.max 0 dt)))), None)
@@ -171,14 +169,16 @@ Definition pstep_gen (lg : pstate -> N -> N -> pstate * bool) (stp : state -> op
       end
   end.
 
-Definition pstep := pstep_gen login step.
+Definition pstep := pstep_gen true step.
 
 Definition prun (n : nat) (ops : list pop) : pstate :=
   fold_left (fun s o => fst (pstep s o)) ops (pinit n).
 
-(* the code before the repairs: signed exp claim not looked at, eviction in the primary only,
-   synchronisation that never deletes (Storage.step_old) *)
-Definition pstep_old := pstep_gen (login_gen false true false) (step_old false).
+(* the code before the repairs: signed exp claim not looked at, eviction and refresh in the
+   primary only, synchronisation that never deletes (Storage.step_old) *)
+Definition pstep_old := pstep_gen false (step_old false).
+Definition prun_old (n : nat) (ops : list pop) : pstate :=
+  fold_left (fun s o => fst (pstep_old s o)) ops (pinit n).
 
 (* ------------------------------------------------------------------ the other backends *)
 (* app.go reprocessUsername: lower-casing (usernames are byte strings here) *)
